@@ -66,9 +66,19 @@ class C02(Spec):
         al.append(["C 1 snapshot false", "SNAP"])
         return al
 
+    def alphabet_cluster_form(self, keys):
+        """the same versioned writes arriving in the form a cluster link (or an administrator) sends them: `replicate <db> <key> <version> <value>`
+        is a versioned write like set-safe and must be judged by the same rule on the node that receives it"""
+        al = []
+        for k in keys:
+            al.append([f"C 1 set {k} p"]); al.append([f"C 2 get-safe {k}"]); al.append([f"C 2 set-safe {k} 1 s1"])
+            for v in (0, 1, 2, 3): al.append([f"C 1 replicate t {k} {v} r{v}"])
+        return al
+
     def generate(self, tier, seed):
         pre = kvgen.setup()
         cases = list(kvgen.product_cases(pre, self.alphabet(("a",)), 4 if tier == "quick" else 5))
+        cases += list(kvgen.product_cases(pre, self.alphabet_cluster_form(("a",)), 3 if tier == "quick" else 4))
         rng = core.XorShift(seed)
         cases += list(kvgen.random_cases(pre, self.alphabet(("a", "b")) + [["C 1 set-safe a 2147483646 big"], ["C 1 snapshot true", "SNAP"]], rng,
                                          1500 if tier == "quick" else 30000, 4, 14))
@@ -88,6 +98,7 @@ class C02(Spec):
                 r = next((x for x in rest if x.startswith("R ")), "R ?")
                 if r.startswith("R PANIC"): fails.append(Failure("panic", f"{inp}: {r}")); break
                 ok = r == "R ok"
+                if p[0] == "replicate" and len(p) >= 5 and p[1] == "t": p = ["set-safe"] + p[2:]
                 if p[0] == "set-safe" and len(p) >= 4 and re.fullmatch(r"\d+", p[2]):
                     k = p[1]; v = int(p[2])
                     if k in prev and prev[k]["ver"] >= 0:
